@@ -137,6 +137,8 @@ Check(tr, e) ==
       [] e.ev = "CEncode" ->
             \* C memory image (storage bit vectors) -> bytes
             IF Len(e.bytes) # NBytes(t) THEN "length"
+            ELSE IF "v" \in DOMAIN e /\ e.mem # StorageV(t, ToBitsV(t, e.v))
+                 THEN "machinery:harness-image"
             ELSE LET tv == TruncV(t, e.mem)
                      w == Enc(t, tv)
                      by == Bytes(w)
